@@ -75,16 +75,23 @@ def search(ctx, N):
                 if ctx.violation('nan-column:%s' % method, 'Derivative(np.log, method=%r)([2.0, 1e-5, 0.7])[%d] = %r but the scalar evaluation gives %r: an element whose estimates are all NaN disturbs the other elements' % (method, i, float(v[i]), ref[i]),
                                  {'x': x.tolist(), 'result': [float(t) for t in v], 'scalar': ref}):
                     break
-    # extra positional and keyword arguments
-    seen = []
+    # extra positional and keyword arguments: every evaluation, every n (n = 0 takes a separate code path), every method
+    for n in (0, 1, 2, 3):
+        for method in ('central', 'forward', 'complex', 'multicomplex'):
+            if method == 'multicomplex' and n > 2:
+                continue
+            seen = []
 
-    def g(x, a, b=0.0):
-        seen.append((a, b))
-        return a * x * x + b * x
-    nd.Derivative(g, n=1)(np.array([1.0, 2.0]), 3.0, b=5.0)
-    ctx.count(1, ('search', 'args'))
-    if not seen or any(s != (3.0, 5.0) for s in seen):
-        ctx.violation('args', 'extra arguments are not forwarded unchanged on every evaluation: %r' % (seen[:3],), {})
+            def g(x, a, b=0.0):
+                seen.append((a, b))
+                return a * x * x + b * x
+            val = nd.Derivative(g, n=n, method=method)(np.array([1.0, 2.0]), 3.0, b=5.0)
+            ctx.count(1, ('search', 'args', n, method))
+            if not seen or any(s != (3.0, 5.0) for s in seen):
+                ctx.violation('args:n=%d' % n, 'nd.Derivative(g, n=%d, method=%r)(x, 3.0, b=5.0): g received (a, b) = %r on some evaluation (expected (3.0, 5.0) on every one)' % (
+                    n, method, [s for s in seen if s != (3.0, 5.0)][:2]), {'n': n, 'method': method, 'how': 'def g(x, a, b=0.0): ...; nd.Derivative(g, n=n, method=method)(np.array([1., 2.]), 3.0, b=5.0)'})
+            elif n == 0 and not np.allclose(val, 3.0 * np.array([1.0, 4.0]) + 5.0 * np.array([1.0, 2.0])):
+                ctx.violation('args-value:n=0', 'n = 0 does not return g(x, 3.0, b=5.0)', {'n': n, 'method': method})
 
 
 def run(ctx):
